@@ -490,7 +490,15 @@ func checkWire(c *core.Check, which string) {
 	var failedPacks []string
 	for _, g := range groups {
 		if _, ex := sc.Excluded[g.Pkg]; ex {
-			failedPacks = append(failedPacks, g.Pkg)
+			dup := false // (a package has two groups: through NewClient and through LocalClient)
+			for _, fp := range failedPacks {
+				if fp == g.Pkg {
+					dup = true
+				}
+			}
+			if !dup {
+				failedPacks = append(failedPacks, g.Pkg)
+			}
 			continue
 		}
 		kept = append(kept, g)
